@@ -15,7 +15,7 @@ open BinNums
 open PacketCore
 open PacketScript
 
-let fuel = nat_of_int 400
+let fuel = nat_of_int 4000
 
 let zi s = z_of_int (int_of_string s)
 
@@ -114,7 +114,8 @@ let run (id : string) (ops : string list) (out : out_channel) =
      | NewOk pk ->
        let p = (match pk with PEager p -> p | PLazy lp -> lp.lp_p) in
        Printf.fprintf out "%s\t0\tnew=ok;origin=%s\n" id
-         (match p.p_origin with DataAlias -> "alias" | DataCopy -> "copy" | DataPool -> "pool")
+         (match p.p_origin with DataPool -> "pool" | _ when !data = [] -> "na"  (* aliasing of an empty slice is not observable *)
+                              | DataAlias -> "alias" | DataCopy -> "copy")
      | NewPanic -> Printf.fprintf out "%s\t0\tnew=panic\n" id
      | NewFuel -> Printf.fprintf out "%s\t0\tnew=fuel\n" id);
     let n = ref 1 in
